@@ -62,10 +62,10 @@ Qed.
 (* each flag repairs its own defect only: with just the other flag on, the witness still fails *)
 Definition rv_only_replace : revision :=
   {| fix_rollback_replace := true; fix_alias_steal_undo := false; fix_alias_nodes_only := false;
-     fix_strict_order := false; fix_slice_clamp := false; fix_edge_origin := false; fix_visited_chain := false; fix_nodes_ids_alias := false |}.
+     fix_strict_order := false; fix_slice_clamp := false; fix_edge_origin := false; fix_visited_chain := false; fix_nodes_ids_alias := false; fix_empty_alias := false |}.
 Definition rv_only_steal : revision :=
   {| fix_rollback_replace := false; fix_alias_steal_undo := true; fix_alias_nodes_only := false;
-     fix_strict_order := false; fix_slice_clamp := false; fix_edge_origin := false; fix_visited_chain := false; fix_nodes_ids_alias := false |}.
+     fix_strict_order := false; fix_slice_clamp := false; fix_edge_origin := false; fix_visited_chain := false; fix_nodes_ids_alias := false; fix_empty_alias := false |}.
 
 Lemma flags_independent :
   obs_eq (w1_init rv_only_replace) (fst (transaction rv_only_replace (w1_init rv_only_replace) w1_txn true)) /\
@@ -98,7 +98,7 @@ Qed.
 Definition rv_no_ids_alias : revision :=
   {| fix_rollback_replace := true; fix_alias_steal_undo := true; fix_alias_nodes_only := true;
      fix_strict_order := true; fix_slice_clamp := true; fix_edge_origin := true; fix_visited_chain := true;
-     fix_nodes_ids_alias := false |}.
+     fix_nodes_ids_alias := false; fix_empty_alias := false |}.
 Definition w3_txn : list query := [InsertNodes 0 (Single []) [w_a] (Ids [QId 2])].
 
 Lemma nodes_ids_alias_refuted :
